@@ -29,7 +29,8 @@ def generate(r):
     nf = r.randint(1, 5)
     scripts = []
     senders_of = collections.defaultdict(list)
-    pattern = r.choice(["random", "random", "random", "backlog", "pingpong", "fan", "balanced", "balanced", "early_wakes", "stale_sender"])
+    pattern = r.choice(["random", "random", "random", "backlog", "pingpong", "fan", "balanced", "balanced", "early_wakes", "stale_sender",
+                        "parked_close", "fanout_close", "leftovers"])
     preset_spawned = {}
     preset_main = None
 
@@ -120,6 +121,85 @@ def generate(r):
         senders_of[x] += [0, 1]
         senders_of[y].append(1)
         nf = len(scripts)
+    elif pattern == "parked_close":
+        # several receivers are parked on an empty buffered channel (each one reports on a second channel first); the main
+        # fiber then puts in no more values than there are receivers and closes the channel at once, without a context
+        # switch in between: what was buffered before the close is still delivered, then everybody sees the close
+        w, ready = 0, len(caps)
+        caps[w] = r.choice([1, 2, 3, 4])
+        nrecv = r.randint(2, 3)
+        caps.append(nrecv)
+        for f in range(nrecv):
+            scripts.append([["send", ready, 0], ["drain", w]] if r.random() < 0.8 else [["send", ready, 0], ["recv", w], ["drain", w]])
+            senders_of[ready].append(f)
+        m = r.randint(1, min(nrecv, caps[w]))
+        preset_main = [["recv", ready] for _ in range(nrecv)] + [["send", w, 0] for _ in range(m)] + [["close", w]]
+        nf = len(scripts)
+    elif pattern == "fanout_close":
+        # one producer, one channel per worker: the producer serves every channel, closes them all and finishes, so its
+        # completion scan meets several channels that each have somebody to wake
+        k = r.randint(2, 3)
+        caps = [r.choice([0, 0, 1, 2]) for _ in range(k)]
+        producer = []
+        for ch in range(k):
+            for _ in range(r.randint(0 if caps[ch] else 1, min(2, max(1, caps[ch])))):
+                producer.append(["send", ch, 0])
+            if not any(op[1] == ch for op in producer):
+                producer.append(["send", ch, 0])
+        closes = [["close", ch] for ch in range(k)]
+        r.shuffle(closes)
+        producer += closes
+        position = r.randint(0, k)
+        for ch in range(k):
+            scripts.append([["drain", ch]])
+        scripts.insert(position, producer)
+        preset_main = []
+        nf = len(scripts)
+    elif pattern == "leftovers":
+        # a receiver that parks on an empty buffered channel, is resumed early every time one of its children finishes and
+        # registers again: when its value finally arrives one registration is used up and the others stay behind after the
+        # fiber has finished. A second receiver then parks behind them and a sender that has used no other channel feeds
+        # it. The main fiber never touches that channel (its own rescans cannot rescue anybody) and lets the others run
+        # through 'pauses': a synchronous handshake with a sink fiber that is queued behind everybody who can run
+        c, x, g, t = 0, 1, 2, 3
+        caps = [r.choice([1, 1, 2]), 0, 3, 0]
+        nk = r.randint(1, 3)
+        gated = [r.random() < 0.5 for _ in range(nk)]
+        scripts.append([["spawn", 1 + i] for i in range(nk)] + [["recv", c]])
+        for i in range(nk):
+            scripts.append([["recv", g]] if gated[i] else [])
+            preset_spawned[str(1 + i)] = 0
+        nr = r.randint(1, 2)
+        feeder, second, third = len(scripts), len(scripts) + 1, len(scripts) + 2
+        scripts.append([["send", c, 0], ["send", x, 0]] if r.random() < 0.7 else [["send", c, 0]])
+        scripts.append([["recv", c] for _ in range(nr)])
+        scripts.append([["send", c, 0] for _ in range(nr)])
+        feed = []
+        handshakes = [0]
+
+        def pause(count):
+            for _ in range(count):
+                feed.append(["send", t, 0])
+                handshakes[0] += 1
+
+        pause(r.randint(1, 3))
+        for i in range(nk):
+            if gated[i]:
+                feed.append(["send", g, 0])
+                pause(r.randint(1, 2))
+        feed.append(["spawn", feeder])
+        if len(scripts[feeder]) == 2:
+            feed.append(["recv", x])
+        else:
+            pause(1)
+        feed.append(["spawn", second])
+        pause(r.randint(1, 2))
+        feed.append(["spawn", third])
+        for fiber in (feeder, second, third):
+            preset_spawned[str(fiber)] = -1
+        scripts.append([["recv", t] for _ in range(handshakes[0])])
+        preset_main = feed
+        nf = len(scripts)
     elif pattern == "balanced":
         # count-balanced senders and receivers per channel: completes under every ideal schedule, so every lost
         # wake-up shows as a spurious deadlock
@@ -207,7 +287,7 @@ def generate(r):
 
     # optional close by a fiber that has used the channel, and a drain by someone else
     for ch in range(len(caps)):
-        if pattern in ("early_wakes", "stale_sender"):
+        if pattern in ("early_wakes", "stale_sender", "parked_close", "fanout_close", "leftovers"):
             break
         if any(op[0] == "close" and op[1] == ch for script in scripts for op in script):
             continue
@@ -250,7 +330,7 @@ def generate(r):
     spawned = dict(preset_spawned)
     if preset_main is not None:
         main = preset_main
-    if not preset_spawned and r.random() < 0.35:
+    if not preset_spawned and preset_main is None and r.random() < 0.35:
         for child in range(1, len(scripts)):
             if r.random() < 0.5:
                 parent = r.randrange(-1, child)          # -1: the main fiber, later in its script
@@ -269,6 +349,58 @@ def generate(r):
     # through the channel buffer or the parked sender while in flight
     return {"caps": caps, "scripts": scripts, "main": main, "join": join, "variants": variants, "heap": r.random() < 0.5,
             "spawned": spawned}
+
+
+# ---------- starvation probe ---------------------------------------------------------------------
+
+STARVE_BOUND = 300
+
+
+def starve_generate(r):
+    """Fibers that are runnable and need nothing, launched around two fibers that hand a value back and forth for as
+    long as the others have not all had their turn."""
+    nset = r.randint(1, 3)
+    order = ["setter"] * nset + ["echo"]
+    r.shuffle(order)
+    return {"order": order, "ping_cap": r.choice([0, 0, 1]), "pong_cap": r.choice([0, 0, 1]), "heap": r.random() < 0.5,
+            "extra_echo": r.random() < 0.3}
+
+
+def starve_program(params):
+    nset = params["order"].count("setter")
+    lines = ["let turns = 0;", "let rounds = 0;",
+             "fn setter(k) { turns = turns + 1; }",
+             "fn echo(ping, pong) { let v = <- ping; while v != nil { pong <- v; v = <- ping; } }",
+             "let ping = chan(%s);" % (params["ping_cap"] or ""), "let pong = chan(%s);" % (params["pong_cap"] or ""),
+             "let ping2 = chan();", "let pong2 = chan();"]
+    number = 0
+    for what in params["order"]:
+        if what == "setter":
+            lines.append("launch setter(%d);" % number)
+            number += 1
+        else:
+            lines.append("launch echo(ping, pong);")
+            if params["extra_echo"]:
+                lines.append("launch echo(ping2, pong2);")
+    payload = "'r${rounds}'" if params["heap"] else "rounds"
+    second = " ping2 <- %s; <- pong2;" % payload if params["extra_echo"] else ""
+    lines.append("while turns < %d && rounds < %d { ping <- %s; <- pong;%s rounds = rounds + 1; }" % (nset, STARVE_BOUND, payload, second))
+    lines.append("ping.close(); ping2.close();")
+    lines.append("print('STARVE', turns, rounds);")
+    return {"name": "starve", "main": workloads.MAIN, "files": {workloads.MAIN: "\n".join(lines) + "\n"}}
+
+
+def starve_check(result, params):
+    nset = params["order"].count("setter")
+    for line in result["stdout"].splitlines():
+        if line.startswith("STARVE "):
+            _, turns, rounds = line.split()
+            if int(turns) != nset or int(rounds) >= STARVE_BOUND:
+                return [("a launched fiber that is able to run did not get its turn",
+                         "%s of %d fibers that need nothing had run after %s hand-overs between two other fibers" % (turns, nset, rounds))]
+            return []
+    return [("a program whose fibers can all finish did not finish", "no verdict line; exit %s, stderr %s" % (
+        result.get("vmexit"), result.get("stderr", "")[-300:]))]
 
 
 # ---------- renderer ----------------------------------------------------------------------------
@@ -293,8 +425,8 @@ def render_ops(ops, fid, heap=False, launch_text=None):
             out.append("try { c%d <- %s; print('S', %d, %d, %d, c%d.len()); } catch e: Error { print('E', %d, %d, %d); }" % (
                 op[1], op[2], fid, op[1], op[3], op[1], fid, op[1], op[3]))
         elif op[0] == "drain":
-            out.append("if true { let v = <- c%d; while v != nil { print('R', %d, %d, v, c%d.len()); v = <- c%d; } print('N', %d, %d); }" % (
-                op[1], fid, op[1], op[1], op[1], fid, op[1]))
+            out.append("if true { let v = <- c%d; while v != nil { print('R', %d, %d, v, c%d.len()); v = <- c%d; } print('N', %d, %d, c%d.len()); }" % (
+                op[1], fid, op[1], op[1], op[1], fid, op[1], op[1]))
     return out
 
 
@@ -536,6 +668,9 @@ def check_history(stdout, ir, outcome):
                     nil_after[ch].append(idx)
                     if ch not in closed_at:
                         problems.append(("receive yielded nil on an open channel", "record %d: %s" % (idx, " ".join(p))))
+                    elif int(p[4]) > 0:
+                        problems.append(("receive yielded nil although the closed channel still holds values",
+                                         "record %d: %s" % (idx, " ".join(p))))
                     continue
                 v = int(p[3][1:]) if (ir.get("heap") and p[3].startswith("v")) else int(p[3])
                 if v not in sent:
@@ -566,6 +701,11 @@ def check_history(stdout, ir, outcome):
                 # that happened while it was parked; only buffered sends are judged here)
                 if ch in closed_at and caps[ch] > 0:
                     problems.append(("send into a closed channel did not raise", "value %d after close of channel %d" % (v, ch)))
+            elif p[0] == "N":
+                # end of a drain loop: the receive that ended it yielded nil
+                if len(p) > 3 and int(p[3]) > 0:
+                    problems.append(("receive yielded nil although the closed channel still holds values",
+                                     "record %d: %s" % (idx, " ".join(p))))
             elif p[0] == "X":
                 closed_at[int(p[2])] = idx
             elif p[0] == "E":
